@@ -210,6 +210,12 @@ class Loader(yaml.SafeLoader):
             if (not issubclass(recognized_type, enum.Enum)
                     and not is_string_like(recognized_type)):
                 for attr_name, type_, _ in class_subobjects(recognized_type):
+                    if not isinstance(node, yaml.MappingNode):
+                        raise RecognitionError((
+                            '{}\nExpected a mapping here. There is probably'
+                            ' something wrong with your _yatiml_recognize()'
+                            ' or _yatiml_savorize() function.').format(
+                                node.start_mark))
                     cnode = Node(node)
                     if cnode.has_attribute(attr_name):
                         subnode = cnode.get_attribute(attr_name)
